@@ -179,7 +179,7 @@ theorem appendRealloc_sat (cfg : Cfg) (c : Nat) (strong : Bool) (srcs : List (Sr
     (ha : ArgsOK cfg w c srcs) (hstrong : strong = true → movesFor cfg true = true → cfg.tMove = false) :
     (appendRealloc cfg c strong srcs w).sat
       (fun r w' => r = (w.hdr c).size ∧ Appended cfg w w' c (srcs.map (srcVal w)))
-      (fun _ w' => (strong = true → Strong w w') ∧ Basic cfg w w' c ∧ w'.hdr c = w.hdr c) := by
+      (fun _ w' => (strong = true → Strong w w') ∧ Basic cfg w w' c ∧ w'.hdr c = w.hdr c ∧ w'.live = w.live) := by
   unfold appendRealloc
   rw [bind_run, getV_run]
   simp only []
@@ -188,8 +188,8 @@ theorem appendRealloc_sat (cfg : Cfg) (c : Nat) (strong : Bool) (srcs : List (Sr
     rw [← hncap]; exact newCapacity_bounds _ _ _ hgrow hmax
   obtain ⟨hnd, hni⟩ := hv.next_ne hl
   have hN : (w.hdr c).N < ncap := by have := hv.cap_ge; omega
-  have strongOut : ∀ w', Strong w w' → (strong = true → Strong w w') ∧ Basic cfg w w' c ∧ w'.hdr c = w.hdr c :=
-    fun w' h => ⟨fun _ => h, h.basic hl hv, by rw [h.hdr]⟩
+  have strongOut : ∀ w', Strong w w' → (strong = true → Strong w w') ∧ Basic cfg w w' c ∧ w'.hdr c = w.hdr c ∧ w'.live = w.live :=
+    fun w' h => ⟨fun _ => h, h.basic hl hv, by rw [h.hdr], h.live⟩
   refine sat_bind (allocate_sat cfg (w.hdr c).alloc ncap w) (fun nb w2 h2 => ?_) (fun e w2 h => strongOut _ (Strong.of_quiet hl h.2))
   obtain ⟨hnb, hm2, ho2, hlv2, hn2, hh2, ht2, hu2⟩ := h2
   subst hnb
@@ -209,7 +209,7 @@ theorem appendRealloc_sat (cfg : Cfg) (c : Nat) (strong : Bool) (srcs : List (Sr
       (∀ k (h : k < srcs.length), (w3.mem w.next)[(w.hdr c).size + k]? = some (.obj (srcVal w srcs[k]))) ∧
       (∀ i, i < ncap → ¬ ((w.hdr c).size ≤ i ∧ i < (w.hdr c).size + srcs.length) → IsRaw w3 w.next i) ∧
       (∀ i : Nat, (w3.mem (w.hdr c).data)[i]? = (w.mem (w.hdr c).data)[i]?))
-      (E := fun _ w' => (strong = true → Strong w w') ∧ Basic cfg w w' c ∧ w'.hdr c = w.hdr c)
+      (E := fun _ w' => (strong = true → Strong w w') ∧ Basic cfg w w' c ∧ w'.hdr c = w.hdr c ∧ w'.live = w.live)
       (Res.sat_mono hfill ?_ (fun _ _ h => h)) ?_) ?_ (fun _ _ h => h)
   · intro _ w3 ⟨hc3, hv3, hrest3⟩
     have hb3 : Built cfg w w3 c ncap := hb2.step hc3
@@ -246,7 +246,7 @@ theorem appendRealloc_sat (cfg : Cfg) (c : Nat) (strong : Bool) (srcs : List (Sr
         (∀ i, i < (w.hdr c).size → (w4.mem w.next)[i]? = (w.mem (w.hdr c).data)[i]?) ∧
         (∀ k (h : k < srcs.length), (w4.mem w.next)[(w.hdr c).size + k]? = some (.obj (srcVal w srcs[k]))) ∧
         (∀ i, (w.hdr c).size + srcs.length ≤ i → i < ncap → IsRaw w4 w.next i))
-        (E := fun _ w' => (strong = true → Strong w w') ∧ Basic cfg w w' c ∧ w'.hdr c = w.hdr c)
+        (E := fun _ w' => (strong = true → Strong w w') ∧ Basic cfg w w' c ∧ w'.hdr c = w.hdr c ∧ w'.live = w.live)
         (Res.sat_mono hmv ?_ (fun _ _ h => h)) ?_) ?_ (fun _ _ h => h)
     · intro _ w4 hr
       have hb4 : Built cfg w w4 c ncap := hb3.step hr.ctl (fun i hi => by simpa using hr.src i hi)
@@ -291,9 +291,9 @@ theorem appendRealloc_sat (cfg : Cfg) (c : Nat) (strong : Bool) (srcs : List (Sr
             rw [this, hdata3]) hraw5
         rw [bind_run, hd]
         exact strongOut _ hs6
-      · obtain ⟨w6, hd, hbs, hh6, _⟩ := abort_realloc_basic hv hl hb5 hraw5
+      · obtain ⟨w6, hd, hbs, hh6, hlv6⟩ := abort_realloc_basic hv hl hb5 hraw5
         rw [bind_run, hd]
-        refine ⟨fun hs => ?_, hbs, by rw [hh6]⟩
+        refine ⟨fun hs => ?_, hbs, by rw [hh6], hlv6⟩
         exfalso
         subst hs
         have hm : movesFor cfg true = true := by
@@ -333,10 +333,10 @@ theorem VecOK.cap_le_max {cfg : Cfg} {w : World α} {c : Nat} (hv : VecOK cfg w 
 /-- what every append-style operation guarantees when it exits by an exception:
     strong guarantee under the strong relocation policy, basic guarantee with the header unchanged otherwise -/
 def AppendFail (cfg : Cfg) (strong : Bool) (w w' : World α) (c : Nat) : Prop :=
-  (strong = true → Strong w w') ∧ Basic cfg w w' c ∧ w'.hdr c = w.hdr c
+  (strong = true → Strong w w') ∧ Basic cfg w w' c ∧ w'.hdr c = w.hdr c ∧ w'.live = w.live
 
 theorem AppendFail.of_strong {cfg : Cfg} {strong : Bool} {w w' : World α} {c : Nat} (hl : Ledger w) (hv : VecOK cfg w c)
-    (h : Strong w w') : AppendFail cfg strong w w' c := ⟨fun _ => h, h.basic hl hv, by rw [h.hdr]⟩
+    (h : Strong w w') : AppendFail cfg strong w w' c := ⟨fun _ => h, h.basic hl hv, by rw [h.hdr], h.live⟩
 
 /-- append of the sources `srcs` at the end (the common body of append_copies and append_range for forward ranges):
     in place when the spare capacity suffices, otherwise length_error or reallocation -/
